@@ -240,6 +240,17 @@ def printed_tuples(out, tags=("VIOL", "DRIFT", "INFO")):
 # ---------------------------------------------------------------------------------------
 # trace validation
 # ---------------------------------------------------------------------------------------
+def _nonull(x):
+    """TLC's JSON reader has no null: None becomes the empty string"""
+    if x is None:
+        return ""
+    if isinstance(x, dict):
+        return {k: _nonull(v) for k, v in x.items()}
+    if isinstance(x, (list, tuple)):
+        return [_nonull(v) for v in x]
+    return x
+
+
 def validate_traces(traces, module, props, workers=8, timeout=900, extra_constants=None, wd=None, batch=None, heap="8g"):
     """Validate a list of JSON-able traces with the trace spec <module> (a module of spec/ that
     reads IOEnv.TRACE_FILE and has constants Props).  Returns dict(viol=[...], drift=[...],
@@ -253,7 +264,7 @@ def validate_traces(traces, module, props, workers=8, timeout=900, extra_constan
             chunk = traces[b0:b0 + batch]
             tf = os.path.join(wd, "traces_%d.json" % b0)
             with open(tf, "w") as f:
-                json.dump(chunk, f)
+                json.dump(_nonull(chunk), f)
             cfg = os.path.join(wd, "%s_%d.cfg" % (module, b0))
             consts = {"Props": "{" + ", ".join('"%s"' % p for p in sorted(props)) + "}"}
             if extra_constants:
